@@ -8,6 +8,7 @@ import Driver.Grp
 import Driver.Commit
 import Driver.Ev
 import Driver.Cfg
+import Driver.Isect
 /-! Model driver: one request per line on stdin, one answer per line on stdout.
     Pure areas answer from the request alone; `store` threads the backend states. -/
 open Drv
@@ -25,6 +26,8 @@ def dispatch (st : State) (line : String) : State × String :=
   | "grp" :: r => (st, Grp.handle r)
   | "ev" :: r => (st, Ev.handle r)
   | "cfg" :: r => (st, Cfg.handle r)
+  | "isect" :: r => (st, Isect.handle r)
+  | "punion" :: r => (st, Isect.handleUnion r)
   | "commit" :: r => let (c', out) := Commit.handle st.commit r; ({ st with commit := c' }, out)
   | "store" :: r => let (s', out) := Store.handle st.store r; ({ st with store := s' }, out)
   | [] => (st, "bad empty")
